@@ -9,7 +9,7 @@ import BB.Proofs.G4Elem
 
 namespace BB
 
-theorem mem_upsert_cases {κ α : Type} [DecidableEq κ] (d : Dict κ α) (k : κ) (v : α) (x : κ × α)
+theorem g4_mem_upsert_cases {κ α : Type} [DecidableEq κ] (d : Dict κ α) (k : κ) (v : α) (x : κ × α)
     (h : x ∈ Dict.upsert d k v) : x = (k, v) ∨ x ∈ d := by
   induction d with
   | nil => simp only [Dict.upsert, List.mem_singleton] at h; exact Or.inl h
@@ -33,21 +33,21 @@ namespace Element
 /-- the elements the public API can build: the empty element, and whatever `addBluePrint`,
     `addArray`, `addFlags`, `changeArg`, `changeDuration`, `validateDurations`, `_applyDelays` and
     `copy` make of a built element (whether the call is accepted or raises) -/
-inductive Built : Element → Prop
-  | empty : Built {}
-  | addBluePrint (e : Element) (ch : Chan) (b : BP) : Built e → Built (e.addBluePrint ch b).st
+inductive ApiBuilt : Element → Prop
+  | empty : ApiBuilt {}
+  | addBluePrint (e : Element) (ch : Chan) (b : BP) : ApiBuilt e → ApiBuilt (e.addBluePrint ch b).st
   | addArray (e : Element) (ch : Chan) (wfm : List Rat) (sr : Val) (kw : Dict String (List Rat)) :
-      Built e → Built (e.addArray ch wfm sr kw).st
-  | addFlags (e : Element) (ch : Chan) (fl : List Val) : Built e → Built (e.addFlags ch fl).st
+      ApiBuilt e → ApiBuilt (e.addArray ch wfm sr kw).st
+  | addFlags (e : Element) (ch : Chan) (fl : List Val) : ApiBuilt e → ApiBuilt (e.addFlags ch fl).st
   | changeArg (e : Element) (ch : Chan) (name : String) (arg value : Val) (all : Bool) :
-      Built e → Built (e.changeArg ch name arg value all).st
+      ApiBuilt e → ApiBuilt (e.changeArg ch name arg value all).st
   | changeDuration (e : Element) (ch : Chan) (name : String) (dur : Val) (all : Bool) :
-      Built e → Built (e.changeDuration ch name dur all).st
-  | validateDurations (e : Element) : Built e → Built e.validateDurations.st
-  | applyDelays (e : Element) (ds : List Rat) : Built e → Built (e.applyDelays ds).st
-  | copy (e : Element) : Built e → Built e.copy
+      ApiBuilt e → ApiBuilt (e.changeDuration ch name dur all).st
+  | validateDurations (e : Element) : ApiBuilt e → ApiBuilt e.validateDurations.st
+  | applyDelays (e : Element) (ds : List Rat) : ApiBuilt e → ApiBuilt (e.applyDelays ds).st
+  | copy (e : Element) : ApiBuilt e → ApiBuilt e.copy
 
-theorem withBP_wf (e : Element) (ch : Chan) (f : BP → Res BP) (h : Dict.WF e.chans) : Dict.WF (e.withBP ch f).st.chans := by
+theorem g4_withBP_wf (e : Element) (ch : Chan) (f : BP → Res BP) (h : Dict.WF e.chans) : Dict.WF (e.withBP ch f).st.chans := by
   unfold withBP
   split
   · exact h
@@ -55,7 +55,7 @@ theorem withBP_wf (e : Element) (ch : Chan) (f : BP → Res BP) (h : Dict.WF e.c
     · exact Dict.wf_upsert h _ _
     · exact h
 
-theorem applyDelays_err_or_same (e : Element) (ds : List Rat) :
+theorem g4_applyDelays_err_or_same (e : Element) (ds : List Rat) :
     (e.applyDelays ds).err = none ∨ (e.applyDelays ds).st.chans = e.chans := by
   unfold applyDelays
   split
@@ -70,9 +70,9 @@ theorem applyDelays_err_or_same (e : Element) (ds : List Rat) :
           · right; rfl
         · right; rfl
 
-theorem applyDelays_keys (e : Element) (ds : List Rat) : Dict.keys (e.applyDelays ds).st.chans = Dict.keys e.chans := by
-  rcases applyDelays_err_or_same e ds with herr | hsame
-  · obtain ⟨_, _, _, _, _, hl, hall⟩ := applyDelays_getElem e ds herr
+theorem g4_applyDelays_keys (e : Element) (ds : List Rat) : Dict.keys (e.applyDelays ds).st.chans = Dict.keys e.chans := by
+  rcases g4_applyDelays_err_or_same e ds with herr | hsame
+  · obtain ⟨_, _, _, _, _, hl, hall⟩ := g4_applyDelays_getElem e ds herr
     apply List.ext_getElem
     · simp [Dict.keys, hl]
     · intro k h1 h2
@@ -82,7 +82,7 @@ theorem applyDelays_keys (e : Element) (ds : List Rat) : Dict.keys (e.applyDelay
   · rw [hsame]
 
 /-- **no channel id twice** in anything the element API builds -/
-theorem Built.wf {e : Element} (h : Built e) : Dict.WF e.chans := by
+theorem ApiBuilt.wf {e : Element} (h : ApiBuilt e) : Dict.WF e.chans := by
   induction h with
   | empty => exact Dict.wf_nil
   | addBluePrint e ch b _ ih =>
@@ -102,14 +102,14 @@ theorem Built.wf {e : Element} (h : Built e) : Dict.WF e.chans := by
       · split
         · exact ih
         · exact Dict.wf_upsert ih _ _
-  | changeArg e ch name arg value all _ ih => exact withBP_wf e ch _ ih
-  | changeDuration e ch name dur all _ ih => exact withBP_wf e ch _ ih
+  | changeArg e ch name arg value all _ ih => exact g4_withBP_wf e ch _ ih
+  | changeDuration e ch name dur all _ ih => exact g4_withBP_wf e ch _ ih
   | validateDurations e _ ih =>
     unfold Element.validateDurations
     split <;> exact ih
   | applyDelays e ds _ ih =>
     unfold Dict.WF
-    rw [applyDelays_keys]
+    rw [g4_applyDelays_keys]
     exact ih
   | copy e _ ih => exact ih
 
@@ -124,18 +124,18 @@ def ElemsWF (s : Sequence) : Prop := ∀ x ∈ s.data, ∀ e, x.2 = .el e → Di
     `addSubSequence`, every settings call (`setSR`, `setChannelAmplitude`, `setChannelOffset`,
     `setChannelDelay` are `setSpec`; `setChannelFilterCompensation`), the sequencing setters,
     `copy`, and `+` -/
-inductive Built : Sequence → Prop
-  | empty : Built {}
-  | addElement (s : Sequence) (pos : Int) (e : Element) : Built s → Element.Built e → Built (s.addElement pos e).st
-  | addSubSequence (s : Sequence) (pos : Int) (sub : Sequence) : Built s → Built sub → Built (s.addSubSequence pos sub).st
-  | setSpec (s : Sequence) (k : String) (v : Spec) : Built s → Built (s.setSpec k v)
+inductive ApiBuilt : Sequence → Prop
+  | empty : ApiBuilt {}
+  | addElement (s : Sequence) (pos : Int) (e : Element) : ApiBuilt s → Element.ApiBuilt e → ApiBuilt (s.addElement pos e).st
+  | addSubSequence (s : Sequence) (pos : Int) (sub : Sequence) : ApiBuilt s → ApiBuilt sub → ApiBuilt (s.addSubSequence pos sub).st
+  | setSpec (s : Sequence) (k : String) (v : Spec) : ApiBuilt s → ApiBuilt (s.setSpec k v)
   | setFilter (s : Sequence) (ch : Chan) (kind : String) (order : Int) (isInt : Bool) (fc tau : Val) :
-      Built s → Built (s.setChannelFilterCompensation ch kind order isInt fc tau).st
-  | setSequencing (s : Sequence) (pos : Int) (f : SeqSet → SeqSet) : Built s → Built (s.setSequencing pos f).st
-  | copy (s : Sequence) : Built s → Built s.copy
-  | add (a b c : Sequence) : Built a → Built b → a.add b = .ok c → Built c
+      ApiBuilt s → ApiBuilt (s.setChannelFilterCompensation ch kind order isInt fc tau).st
+  | setSequencing (s : Sequence) (pos : Int) (f : SeqSet → SeqSet) : ApiBuilt s → ApiBuilt (s.setSequencing pos f).st
+  | copy (s : Sequence) : ApiBuilt s → ApiBuilt s.copy
+  | add (a b c : Sequence) : ApiBuilt a → ApiBuilt b → a.add b = .ok c → ApiBuilt c
 
-theorem foldl_upsert_mem (N : Int) (l : Dict Int Entry) (d0 : Dict Int Entry) (x : Int × Entry)
+theorem g4_foldl_upsert_mem (N : Int) (l : Dict Int Entry) (d0 : Dict Int Entry) (x : Int × Entry)
     (h : x ∈ l.foldl (fun d (p : Int × Entry) => Dict.upsert d (p.1 + N) (copyEntry p.2)) d0) :
     x ∈ d0 ∨ ∃ y ∈ l, x.2 = copyEntry y.2 := by
   induction l generalizing d0 with
@@ -143,13 +143,13 @@ theorem foldl_upsert_mem (N : Int) (l : Dict Int Entry) (d0 : Dict Int Entry) (x
   | cons y ys ih =>
     simp only [List.foldl_cons] at h
     rcases ih _ h with h | ⟨z, hz, hx⟩
-    · rcases mem_upsert_cases _ _ _ _ h with h | h
+    · rcases g4_mem_upsert_cases _ _ _ _ h with h | h
       · exact Or.inr ⟨y, by simp, by rw [h]⟩
       · exact Or.inl h
     · exact Or.inr ⟨z, by simp [hz], hx⟩
 
 /-- **no stored element lists a channel twice** in anything the sequence API builds -/
-theorem Built.elemsWF {s : Sequence} (h : Built s) : ElemsWF s := by
+theorem ApiBuilt.elemsWF {s : Sequence} (h : ApiBuilt s) : ElemsWF s := by
   induction h with
   | empty => intro x hx; cases hx
   | addElement s pos e _ he ih =>
@@ -158,7 +158,7 @@ theorem Built.elemsWF {s : Sequence} (h : Built s) : ElemsWF s := by
     · exact ih
     · intro x hx e' hxe
       simp only at hx
-      rcases mem_upsert_cases _ _ _ _ hx with h | h
+      rcases g4_mem_upsert_cases _ _ _ _ hx with h | h
       · rw [h] at hxe
         simp only [Entry.el.injEq] at hxe
         rw [← hxe]
@@ -172,7 +172,7 @@ theorem Built.elemsWF {s : Sequence} (h : Built s) : ElemsWF s := by
       · exact ih
       · intro x hx e' hxe
         simp only at hx
-        rcases mem_upsert_cases _ _ _ _ hx with h | h
+        rcases g4_mem_upsert_cases _ _ _ _ hx with h | h
         · rw [h] at hxe; cases hxe
         · exact ih x h e' hxe
   | setSpec s k v _ ih => exact ih
@@ -203,7 +203,7 @@ theorem Built.elemsWF {s : Sequence} (h : Built s) : ElemsWF s := by
           simp only at hx
           have hx' : x ∈ b.data.foldl (fun d (p : Int × Entry) => Dict.upsert d (p.1 + (a.data.length : Int)) (copyEntry p.2))
               (a.data.map (fun (p : Int × Entry) => (p.1, copyEntry p.2))) := hx
-          rcases foldl_upsert_mem _ _ _ _ hx' with h | ⟨y, hy, hxy⟩
+          rcases g4_foldl_upsert_mem _ _ _ _ hx' with h | ⟨y, hy, hxy⟩
           · obtain ⟨z, hz, rfl⟩ := List.mem_map.mp h
             simp only at hxe
             cases hz2 : z.2 with
